@@ -879,7 +879,13 @@ pub fn c03(tier: Tier) -> i32 {
     });
     // (i) real walks
     let scratch = Scratch::new();
-    let worlds = fsworld::worlds(tier.pick(3, 4), &NAMES, 3);
+    let mut worlds = fsworld::worlds(tier.pick(3, 4), &NAMES, 3);
+    // worlds with symbolic links (read as files, the default): a link to a directory that a
+    // negation discards as a tree is a leaf, and nothing but the link itself may disappear
+    let plain_worlds = worlds.len();
+    let link_cap = tier.pick(2, 4);
+    worlds.extend(crate::props_links::link_worlds(Tier::Quick).into_iter().filter(|w| w.entries() <= link_cap && w.describe().contains("->")));
+    rep.add("link_worlds", (worlds.len() - plain_worlds) as u64);
     let bases = vec![
         BaseWalk::Path,
         BaseWalk::Glob("**".into()),
@@ -895,6 +901,12 @@ pub fn c03(tier: Tier) -> i32 {
     let outcomes = std::sync::Mutex::new(BTreeSet::<u64>::new());
     let models: Vec<Option<NotModel>> = layers.par_iter().map(|l| guard(|| NotModel::new(l)).ok().flatten()).collect();
     let models = &models;
+    let touches_link: Vec<bool> = models
+        .iter()
+        .map(|m| m.as_ref().map_or(false, |m| ["l", "a/l", "b/l", "a/a/l", "a/b/l", "b/a/l", "b/b/l"].iter().any(|p| m.installed(p).is_some())))
+        .collect();
+    let touches_link = &touches_link;
+    rep.add("negations_touching_links", touches_link.iter().filter(|t| **t).count() as u64);
     worlds.par_iter().for_each(|world| {
         let mut c = Counters::new();
         let place = fswalk::place(&scratch, world);
@@ -902,7 +914,15 @@ pub fn c03(tier: Tier) -> i32 {
         let mut local: Vec<u64> = vec![];
         for base in &bases {
             let Ok(base_run) = execute(&place, base, &[], &History::new()) else { continue };
+            let has_link = world.describe().contains("->");
+            if has_link && !matches!(base, BaseWalk::Path) && !matches!(base, BaseWalk::Glob(g) if g == "**" || g == "*/*" || g == "{a,b}/**") {
+                continue;
+            }
             for (li, l) in layers.iter().enumerate() {
+                // in link worlds only the negations that give a verdict on a link are walked
+                if has_link && !touches_link[li] {
+                    continue;
+                }
                 let stack = [l.clone()];
                 let run = match execute(&place, base, &stack, &History::new()) {
                     Ok(r) => r,
